@@ -109,6 +109,68 @@ chk("C09",
     floors={"quick": {"replays": 1000000, "sends_observed": 500000}},
     )
 
+JOE_NOTE = "Scenarios run inside testing/synctest bubbles (virtual time, exact detection of a bubble that cannot finish); schedules are perturbed by virtual delays at the verif yield points of joe.go (random, targeted and n-th-invocation placements) and repeated under GOMAXPROCS 1/2/4/16; Go's select among simultaneously ready cases stays uncontrolled, so every scenario is executed under many schedules. Deciding observations are taken only at the public boundary (MessageWriter calls, Replayer calls, return values) and ordered by one logical clock."
+
+chk("C03",
+    level="exploration",
+    technique="history monitor over real Joe executions in synctest bubbles with yield-point schedule perturbation: per-subscriber Send/Flush logs checked against the serialisation order witnessed at the Replayer boundary (exactly-once, order, topic filter, completeness before cancel, real-time consistency, flush-before-idle); race detector on",
+    level_text="Seeded scenarios (1-5 subscribers with 1-3 topics incl. DefaultTopic, 1-4 concurrent publishers, cancellations, late subscriptions, optional mid-storm Shutdown, slow subscribers) are each executed under ~12 schedules (quick) / ~25 (thorough). A recording replayer gives Joe's serialisation order of publishes and registrations as a boundary witness; the monitor requires every subscriber's Send sequence to be exactly the matching suffix of that order cut at its removal point, with the cut bounded by logical-clock intervals, no duplicates, nothing for disjoint topics, the serialisation consistent with real time, Publish return values, and a Flush after the last successful Send at every quiescent point. Without a replayer a witness-free consistency oracle is used.",
+    level_note=JOE_NOTE,
+    rule="cases = seeded scenario programs x hook schedules (none, random delay policies, targeted window placements, n-th-invocation delays); non-trivial = at least one subscriber and two publishes; distinct = distinct (scenario, observed yield-point sequence) pair, so the distinct count measures distinct interleavings seen",
+    assumptions=["subscribers' Send/Flush return (finite virtual latency)", "select choice among ready cases is not controlled; coverage of it comes from repetition"],
+    nbatch={"quick": 16, "thorough": 16},
+    timeout_s={"quick": 600, "thorough": 3600},
+    floors={"quick": {"executions": 20000, "client_calls_observed": 200000, "point_loop.sent": 100000}},
+    )
+
+chk("C04",
+    level="exploration",
+    technique="history monitor over real Joe + real FiniteReplayer/ValidReplayer executions in synctest bubbles: a resuming subscriber's replay part and live part are checked against the put order witnessed at the Replayer boundary and a model of the buffer at its registration point; IDs compared between Put, replay and live delivery",
+    level_text="Prefix histories of 0..3N+1 publishes for capacities 2,3,4,7 and the TTL replayer, manual and automatic IDs, then 1-3 subscribers presenting oldest / middle / newest / evicted / never-issued / unset IDs while 1-3 publishers run concurrently, each under ~9 schedules incl. delays at {subscription received, after Replay / before registration, message received, after Put}. The monitor splits every subscriber's Send log at the end of its Replay call and requires replay == buffered events after the ID at the registration point, live == later puts, no gap/duplicate at the boundary, same ID everywhere.",
+    level_note=JOE_NOTE + " An evicted ID with automatic IDs is unconstrained by the property and not judged.",
+    rule="cases = seeded scenarios (replayer kind x prefix length x presented-ID class x concurrent publishers) x hook schedules; non-trivial = at least one subscriber and two publishes; distinct = distinct (scenario, observed yield-point sequence)",
+    assumptions=["ValidReplayer TTL (1 h virtual) never elapses in these scenarios; expiry is covered by C09"],
+    nbatch={"quick": 16, "thorough": 16},
+    timeout_s={"quick": 600, "thorough": 3600},
+    floors={"quick": {"executions": 20000, "client_calls_observed": 200000, "point_loop.replayed": 20000}},
+    )
+
+chk("C06",
+    level="fault_enumeration",
+    technique="fault-injecting MessageWriter/Replayer doubles (k-th Send/Flush fails, optionally cancelling the subscriber's context inside the failing call as net/http does; Replay errors) combined with yield-point delay placements in synctest bubbles; monitors: process survival (child process per batch), logical-clock rule 'no call after Subscribe returned', no overlapping calls, Subscribe return value vs. fault script; race detector on",
+    level_text="For every seeded scenario the failure position (1st-4th Send or Flush of each subscriber), cancellation instants and replay faults are scripted and the scenario is executed under ~13 schedules incl. targeted delays in the window between 'context done seen' and 'unsubscription handed over' and between 'error reported' and 'subscriber removed', plus n-th-invocation delays over all yield points. A Go panic in Joe kills the child process and is reported with the scenario that was running; the monitors check the stamps of every MessageWriter call against the return stamp of its Subscribe and the returned error against the injected one.",
+    level_note=JOE_NOTE,
+    rule="cases = seeded fault scripts (which subscriber fails at which Send/Flush, cancel inside the failing call or at a scheduled instant, Replay error, Shutdown) x hook schedules; non-trivial = at least one subscriber and two publishes; distinct = distinct (scenario, observed yield-point sequence)",
+    assumptions=["select choice among ready cases is not controlled; coverage of it comes from repetition"],
+    nbatch={"quick": 16, "thorough": 16},
+    timeout_s={"quick": 600, "thorough": 3600},
+    floors={"quick": {"executions": 20000, "point_loop.errsent": 5000, "point_sub.ctxdone": 2000}},
+    )
+
+chk("C07",
+    level="exploration",
+    technique="synctest bubbles as exact deadlock/leak detector (a bubble whose goroutines are all durably blocked, or whose Joe goroutine survives, is reported by the runtime) + interval monitor on the return values of every Subscribe/Publish/Shutdown call against Shutdown's call/return stamps",
+    level_text="Random programs of Subscribe / Publish / cancel / 1-3 Shutdown calls (background, already-cancelled and virtual-deadline contexts, concurrent and repeated, Shutdown as first call on a zero Joe, operations after Shutdown), slow subscribers, each under ~11 schedules with delays at the shutdown windows. 'Blocks forever' is decided exactly in virtual time: the scenario's bubble must terminate with every call returned and Joe's goroutine gone. ErrProviderClosed is allowed iff a Shutdown was called before the call returned and required iff the call started after a Shutdown returned nil; exactly one Shutdown may return nil / its context's error.",
+    level_note=JOE_NOTE + " Liveness is restated as bounded progress in virtual time given subscribers whose Send/Flush return after finite virtual latency.",
+    rule="cases = seeded programs x hook schedules; non-trivial = at least one subscriber and two publishes; distinct = distinct (scenario, observed yield-point sequence)",
+    assumptions=["subscribers' Send/Flush return (finite virtual latency)"],
+    nbatch={"quick": 16, "thorough": 16},
+    timeout_s={"quick": 600, "thorough": 3600},
+    floors={"quick": {"executions": 20000, "point_shutdown.closed": 20000}},
+    )
+
+chk("C17",
+    level="fault_enumeration",
+    technique="fault-injecting doubles (failing subscribers; replayer Put/Replay returning errors or panicking at the k-th call) in synctest bubbles with schedule perturbation; healthy subscribers' Send sequences checked against the serialisation witness (or the witness-free oracle after a replayer panic), Publish/Subscribe return values against the fault script, replayer call log after a panic",
+    level_text="2-5 subscribers of which about half fail at a scripted Send/Flush, replayer faults (error or panic) at a scripted Put or Replay call, concurrent publishers and late subscribers, ~10 schedules each with delays inside the fan-out. The monitor requires: healthy subscribers receive exactly the matching serialised messages incl. the one during whose fan-out another subscriber failed; a failing subscriber gets nothing after its failure and its own error from Subscribe; a failing Put is returned by exactly that Publish and the message is still delivered; after a panic the replayer receives no further call while deliveries (checked through real-time completeness and a final probe message) continue.",
+    level_note=JOE_NOTE,
+    rule="cases = seeded fault scripts x hook schedules; non-trivial = at least one subscriber and two publishes; distinct = distinct (scenario, observed yield-point sequence)",
+    assumptions=["subscribers' Send/Flush return"],
+    nbatch={"quick": 16, "thorough": 16},
+    timeout_s={"quick": 600, "thorough": 3600},
+    floors={"quick": {"executions": 20000, "point_loop.errsent": 5000}},
+    )
+
 not_built = {
 }
 
